@@ -200,6 +200,15 @@ func init() {
 				}
 				judgeLegacyApply(c, sc, neg)
 			}},
+			{Name: "names-that-differ-by-case-folding-or-normalisation", Count: n(15000, 600000), Run: func(c *core.Ctx, idx int) {
+				neg := c.R.Intn(2) == 0
+				ncfg := *cfg
+				ncfg.Prof = cfg.Prof.With(func(p *gen.Profile) { p.Keys = gen.NearMissPlainKeys })
+				ncfg.MissRate = 30
+				ncfg.NearNames = true
+				judgeLegacyApply(c, GenSeq(c.R, &ncfg, ref.Opts{NegIdx: neg, Legacy: true}), neg)
+				c.Count("near-miss-names:cases")
+			}},
 			{Name: "applicable-only", Count: n(30000, 1800000), Run: func(c *core.Ctx, idx int) {
 				neg := c.R.Intn(2) == 0
 				cc := *cfg
